@@ -320,8 +320,11 @@ Proof. vm_compute. auto. Qed.
    nc >= 1 channels, any compressed size, header and meta file announcing n
    samples.  After every call:
    - the object exposes the recording's shape (ns = n);
-   - whenever it points at x.bin its cached nbytes is the size of x.bin (the
-     only place nbytes is read is the x.bin branch of open());
+   - the public attribute nbytes is the size of x.bin whenever the object
+     points at x.bin (set at construction, refreshed by the in-place
+     decompression; since aa7f63d open() no longer reads it, see
+     C02_object_warning_iff_meta_wrong; it is NOT the size of x.cbin after
+     compress_file(keep_original=False), see C02_object_nbytes_stale_on_cbin);
    - _raw never holds a closed reader;
    - no size-mismatch warning has been logged.                               *)
 Theorem C02_object_shape_invariant : forall w f ops,
@@ -365,20 +368,26 @@ Proof.
 Qed.
 Print Assumptions C02_object_calls_succeed.
 
-(* open() in general (meta file possibly wrong about nothing but the cached
-   size): it warns exactly when the object points at x.bin and the cached
-   nbytes differs from the real size — which, by the invariant above, no
-   sequence of calls of the current code can bring about.                    *)
-Theorem C02_object_warning_iff_stale_size : forall w o,
-  1 <= w_n w -> 1 <= w_nc w -> w_nch w = w_n w -> o_ns o = w_n w ->
-  exists o', r_open w o = Some o' /\ o_ns o' = w_n w /\
-    (o_warn o' = true <-> (o_file o = DBin /\ o_nbytes o <> 2 * w_n w * w_nc w /\ w_iw w = false)).
+(* open() in general (tree at aa7f63d: the flat-binary mismatch test uses the
+   file's current size): for ANY object state — any count taken from the meta
+   file, any cached nbytes — open() succeeds, exposes the true count, installs
+   the reader of the current file and logs the size-mismatch warning iff the
+   count was wrong and ignore_warnings is off.  The cached nbytes plays no
+   part: changing it changes nothing but the attribute itself.               *)
+Theorem C02_object_warning_iff_meta_wrong : forall w o,
+  1 <= w_n w -> 1 <= w_nc w -> w_nch w = w_n w ->
+  (exists o', r_open w o = Some o' /\ o_ns o' = w_n w /\ o_file o' = o_file o /\
+     o_nbytes o' = o_nbytes o /\
+     o_raw o' = (match o_file o with DBin => RawMemmap | DCbin => RawMtscomp end) /\
+     o_warn o' = negb (o_ns o =? w_n w) && negb (w_iw w)) /\
+  (forall z, r_open w (mkR (o_file o) z (o_ns o) (o_raw o) (o_warn o)) =
+             option_map (fun x => mkR (o_file x) z (o_ns x) (o_raw x) (o_warn x)) (r_open w o)).
 Proof.
-  intros w o Hn Hc Hh Hs.
-  destruct (r_open_ok w o (conj Hn (conj Hc Hh)) Hs) as [o' [E [H1 [_ [_ [_ H2]]]]]].
-  exists o'. auto.
+  intros w o Hn Hc Hh. split.
+  - exact (r_open_gen w o (conj Hn (conj Hc Hh))).
+  - intros z. exact (r_open_nbytes_irrelevant w o z).
 Qed.
-Print Assumptions C02_object_warning_iff_stale_size.
+Print Assumptions C02_object_warning_iff_meta_wrong.
 
 (* Transparency of the SHAPE when the meta file is wrong about the length
    (interrupted acquisition, chopped file), for either ignore_warnings:
@@ -417,9 +426,12 @@ Print Assumptions C02_cbin_shape_eq_bin_shape.
 
 (* What is still not refreshed: compress_file(keep_original=False) switches
    file_bin to x.cbin and keeps the size of x.bin in nbytes.  While the object
-   points at x.cbin nothing reads nbytes, and the next in-place decompression
-   refreshes it — so nothing follows for shape, values or warnings; only the
-   public attribute `nbytes` is the size of the wrong file in that state.    *)
+   points at x.cbin, and ever since aa7f63d, nothing reads nbytes; the next
+   in-place decompression refreshes it — so nothing follows for shape, values
+   or warnings; only the public attribute `nbytes` is the size of the wrong
+   file in that state.  (After construction and after an in-place
+   decompression nbytes IS the size of the file the object points at:
+   r_init, r_decompress_inplace and the invariant above.)                    *)
 Theorem C02_object_nbytes_stale_on_cbin :
   exists w f ops, 1 <= w_n w /\ 1 <= w_nc w /\ w_nch w = w_n w /\
     let o := s_obj (fst (last (r_run w (r_start w f (w_n w)) ops) (r_start w f (w_n w), false))) in
